@@ -10,8 +10,10 @@ import (
 	"encoding/json"
 	"errors"
 	"fmt"
+	"html/template"
 	"reflect"
 	"strings"
+	"sync/atomic"
 	"testing"
 
 	"verif/internal/vk"
@@ -45,19 +47,44 @@ var (
 	tHCIface  = reflect.TypeOf((*hctx.HelperContext)(nil)).Elem()
 )
 
+// strT is a fmt.Stringer (pointer receiver).
+type strT struct{ s string }
+
+func (x *strT) String() string { return x.s }
+
+// fixedNames is the core pool (full products); extFixedNames widens the slot matrix, the arity matrix and the random phases.
 var fixedNames = []string{"string", "int", "float64", "bool", "any", "ptr", "ints"}
+var extFixedNames = []string{"stringer", "err", "i64", "mystr", "anys", "tval", "fn"}
+var allFixedNames = append(append([]string{}, fixedNames...), extFixedNames...)
 
 var fixedTypes = map[string]reflect.Type{
 	"string": reflect.TypeOf(""), "int": reflect.TypeOf(0), "float64": reflect.TypeOf(0.0), "bool": reflect.TypeOf(false),
 	"any": tAny, "ptr": reflect.TypeOf((*T)(nil)), "ints": reflect.TypeOf([]int(nil)),
+	"stringer": reflect.TypeOf((*fmt.Stringer)(nil)).Elem(), "err": tErr, "i64": reflect.TypeOf(int64(0)), "mystr": reflect.TypeOf(myStr("")),
+	"anys": reflect.TypeOf([]interface{}(nil)), "tval": reflect.TypeOf(T{}), "fn": reflect.TypeOf((func(int) int)(nil)),
 }
 
 var mapTypes = map[string]reflect.Type{"map": reflect.TypeOf(map[string]interface{}(nil)), "hmap": reflect.TypeOf(hctx.Map(nil))}
 var hcTypes = map[string]reflect.Type{"struct": tHCStruct, "iface": tHCIface}
-var varElemTypes = map[string]reflect.Type{"int": fixedTypes["int"], "string": fixedTypes["string"], "any": tAny}
+var varElemTypes = map[string]reflect.Type{"int": fixedTypes["int"], "string": fixedTypes["string"], "any": tAny, "stringer": fixedTypes["stringer"]}
 
 var resShapes = []string{"()", "(T)", "(T,nil)", "(T,err)", "(nil)", "(err)"}
-var resTypes = []string{"string", "int", "any"}
+
+// result type T; "anyerr" is interface{} like "any", but the value returned is an error value: the shape is (T), there
+// is no error result, the value is the call's value
+// "zint" / "zstr" / "nilany": int, string and interface{} results whose VALUE is the zero value (0, "", nil): still
+// the call's value
+var resTypes = []string{"string", "int", "any", "anyerr", "zint", "zstr", "nilany"}
+
+var resGoTypes = map[string]reflect.Type{"string": reflect.TypeOf(""), "int": reflect.TypeOf(0), "any": tAny, "anyerr": tAny,
+	"zint": reflect.TypeOf(0), "zstr": reflect.TypeOf(""), "nilany": tAny}
+
+// knownOpen: genuine defects of plush that are not repaired yet. While a class is listed as true the generators steer
+// away from it (counted under excluded); with the table empty every shape is generated.
+//
+//	any-result-holding-error: a result declared interface{} whose VALUE is an error fails the render
+//	(compiler.go: res[len(res)-1].Interface().(error) looks at the dynamic value, not at the declared result type)
+var knownOpen = map[string]bool{"any-result-holding-error": false}
 
 // Sig describes one helper signature of the family.
 type Sig struct {
@@ -94,7 +121,7 @@ func (s Sig) validate() string {
 	if !ok {
 		return "unknown result shape"
 	}
-	if strings.Contains(s.Res, "T") && s.RT != "string" && s.RT != "int" && s.RT != "any" {
+	if strings.Contains(s.Res, "T") && resGoTypes[s.RT] == nil {
 		return "unknown result type"
 	}
 	return ""
@@ -124,13 +151,15 @@ func (s Sig) funcType() reflect.Type {
 	}
 	var out []reflect.Type
 	if strings.Contains(s.Res, "T") {
-		out = append(out, map[string]reflect.Type{"string": fixedTypes["string"], "int": fixedTypes["int"], "any": tAny}[s.RT])
+		out = append(out, resGoTypes[s.RT])
 	}
 	if strings.Contains(s.Res, "nil") || strings.Contains(s.Res, "err") {
 		out = append(out, tErr)
 	}
 	return reflect.FuncOf(in, out, s.Var != "")
 }
+
+func (s Sig) anyErr() bool { return strings.Contains(s.Res, "T") && s.RT == "anyerr" }
 
 func (s Sig) String() string {
 	ps := append([]string{}, s.Fixed...)
@@ -150,8 +179,14 @@ func (s Sig) String() string {
 
 // argKinds are the ways an argument can be spelled in the call. Literal values depend on the position so that
 // exchanged arguments are visible.
-var argKinds = []string{"str", "int", "float", "true", "false", "nil", "hash", "array",
+// coreArgKinds are used by the full products; argKinds (core + extended) by the slot matrix, the route matrix and the
+// random phases. The extended kinds add typed nils of map and slice type, values of interface-implementing, struct,
+// func and further numeric types, and arguments that are expressions (infix, prefix, index, member, parenthesised).
+var coreArgKinds = []string{"str", "int", "float", "true", "false", "nil", "hash", "array",
 	"cvStr", "cvInt", "cvFloat", "cvBool", "cvPtr", "cvNilPtr", "cvInts", "cvI8", "cvMyStr", "cvHMap"}
+var extArgKinds = []string{"cvNilMap", "cvNilInts", "cvErr", "cvStringer", "cvT", "cvAnys", "cvFn", "cvI64", "cvHTML", "cvUint",
+	"sum", "cat", "cmp", "not", "idx", "member", "hidx", "paren"}
+var argKinds = append(append([]string{}, coreArgKinds...), extArgKinds...)
 
 var argKindSet = func() map[string]bool {
 	m := map[string]bool{}
@@ -173,6 +208,22 @@ func argSource(kind string, pos int) string {
 		return fmt.Sprintf("{a: %d}", pos)
 	case "array":
 		return fmt.Sprintf(`[%d, "z"]`, pos)
+	case "sum":
+		return fmt.Sprintf("%d + 20", pos)
+	case "cat":
+		return fmt.Sprintf(`"c" + "%d"`, pos)
+	case "cmp":
+		return fmt.Sprintf("%d == %d", pos, pos)
+	case "not":
+		return "!false"
+	case "idx":
+		return "cvInts[1]"
+	case "member":
+		return "cvPtr.N"
+	case "hidx":
+		return `cvHMap["k"]`
+	case "paren":
+		return fmt.Sprintf("(%d)", pos+30)
 	}
 	return kind // true false nil cvXxx
 }
@@ -183,6 +234,13 @@ type env struct {
 	ptr       *T
 	ints      []int
 	hmap      hctx.Map
+	argErr    error                  // the error value passed as an argument (kind cvErr)
+	resErr    error                  // the error VALUE returned as first result by a function of result type anyerr
+	str       *strT                  // kind cvStringer
+	anys      []interface{}          // kind cvAnys
+	fn        func(int) int          // kind cvFn
+	decoy     bool                   // a function other than the one called was invoked
+	capSeen   []interface{}          // what the use-site recorder zcap received
 	sentinel  error                  // == sentinels[0]
 	sentinels []error                // one per target
 	evals     []int                  // argument positions in the order their wrappers ran
@@ -213,7 +271,8 @@ type got struct {
 	hcSeen   bool
 	hasBlock bool
 	block    vk.Res
-	mapLen   int // role "map": number of entries AT THE MOMENT OF THE CALL
+	block2   vk.Res // Block() called a second time
+	mapLen   int    // role "map": number of entries AT THE MOMENT OF THE CALL
 }
 
 type invocation struct {
@@ -260,14 +319,73 @@ func (e *env) argValue(kind string, pos int) interface{} {
 		return myStr("m")
 	case "cvHMap":
 		return e.hmap
+	case "cvNilMap":
+		return map[string]interface{}(nil)
+	case "cvNilInts":
+		return []int(nil)
+	case "cvErr":
+		return e.argErr
+	case "cvStringer":
+		return e.str
+	case "cvT":
+		return T{N: 9}
+	case "cvAnys":
+		return e.anys
+	case "cvFn":
+		return e.fn
+	case "cvI64":
+		return int64(64)
+	case "cvHTML":
+		return template.HTML("h")
+	case "cvUint":
+		return uint(3)
+	case "sum":
+		return pos + 20
+	case "cat":
+		return fmt.Sprintf("c%d", pos)
+	case "cmp", "not":
+		return true
+	case "idx":
+		return 5
+	case "member":
+		return 3
+	case "hidx":
+		return 1
+	case "paren":
+		return pos + 30
 	}
 	panic("harness: unknown argument kind " + kind)
 }
 
-func newEnv(c Case) *env { return newEnvSigs([]Sig{c.Sig}) }
+// newEnv builds the world of a single-call case; the route decides how the template reaches the function.
+func newEnv(c Case) *env {
+	e := newEnvSigs([]Sig{c.Sig})
+	f := e.data[fname]
+	decoy := func() string { e.decoy = true; return "decoy" }
+	switch c.Route {
+	case "ptr":
+		pv := reflect.New(reflect.TypeOf(f))
+		pv.Elem().Set(reflect.ValueOf(f))
+		e.data[fname] = pv.Interface()
+	case "index":
+		delete(e.data, fname)
+		e.data[fname+"Arr"] = []interface{}{decoy, f, decoy}
+	case "key":
+		delete(e.data, fname)
+		e.data[fname+"Map"] = map[string]interface{}{"k": f, "j": decoy}
+	case "method":
+		delete(e.data, fname)
+		e.data[fname+"Rec"] = &methRec{e: e}
+	case "methodv":
+		delete(e.data, fname)
+		e.data[fname+"Val"] = methRec{e: e}
+	}
+	return e
+}
 
 func newEnvSigs(sigs []Sig) *env {
-	e := &env{sigs: sigs, ptr: &T{N: 3}, ints: []int{4, 5}, hmap: hctx.Map{"k": 1}}
+	e := &env{sigs: sigs, ptr: &T{N: 3}, ints: []int{4, 5}, hmap: hctx.Map{"k": 1},
+		argErr: &sentinelErr{id: 99}, resErr: &sentinelErr{id: 98}, str: &strT{s: "S"}, anys: []interface{}{1, "a"}, fn: func(i int) int { return i + 1 }}
 	for j := range sigs {
 		e.sentinels = append(e.sentinels, &sentinelErr{id: j})
 	}
@@ -286,6 +404,10 @@ func newEnvSigs(sigs []Sig) *env {
 			e.log = append(e.log, event{pos: i, v: v, call: -1})
 			return v
 		}
+	}
+	d["zcap"] = func(v interface{}) interface{} {
+		e.capSeen = append(e.capSeen, v)
+		return v
 	}
 	if len(sigs) == 1 {
 		d[fname] = e.target(0)
@@ -338,6 +460,8 @@ func (e *env) observe(v reflect.Value, role string) got {
 		}
 		if g.hasBlock {
 			g.block = vk.Safe(h.Block)
+			// a helper may render its block as often as it likes (each-like helpers do): always the same block
+			g.block2 = vk.Safe(h.Block)
 		}
 	}
 	return g
@@ -345,10 +469,14 @@ func (e *env) observe(v reflect.Value, role string) got {
 
 // target builds the recording function of the case's signature.
 func (e *env) target(tgt int) interface{} {
+	return reflect.MakeFunc(e.sigs[tgt].funcType(), e.body(tgt)).Interface()
+}
+
+// body is the recording implementation shared by the MakeFunc targets and the hand-written methods.
+func (e *env) body(tgt int) func(in []reflect.Value) []reflect.Value {
 	s := e.sigs[tgt]
-	ft := s.funcType()
 	_, roles := s.params()
-	fn := reflect.MakeFunc(ft, func(in []reflect.Value) (out []reflect.Value) {
+	return func(in []reflect.Value) (out []reflect.Value) {
 		defer func() {
 			if p := recover(); p != nil {
 				e.harness = p
@@ -373,6 +501,12 @@ func (e *env) target(tgt int) interface{} {
 				out = append(out, reflect.ValueOf(s.resultTextOf(tgt)))
 			case "int":
 				out = append(out, reflect.ValueOf(4242+tgt))
+			case "anyerr":
+				rv := reflect.New(tAny).Elem()
+				rv.Set(reflect.ValueOf(e.resErr))
+				out = append(out, rv)
+			case "zint", "zstr", "nilany":
+				out = append(out, reflect.Zero(resGoTypes[s.RT]))
 			default:
 				rv := reflect.New(tAny).Elem()
 				rv.Set(reflect.ValueOf(s.resultTextOf(tgt)))
@@ -387,8 +521,82 @@ func (e *env) target(tgt int) interface{} {
 			out = append(out, ev)
 		}
 		return out
-	})
-	return fn.Interface()
+	}
+}
+
+// ---- methods ---------------------------------------------------------------------------
+
+// methRec carries real Go methods (reflect.MakeFunc cannot make methods) of twelve signatures of the family. Every
+// method hands its parameters, by address so that interface-typed parameters keep their static type, to the same
+// recording body as the MakeFunc targets. The template reaches them as tgtFnRec.ZqX(...) (a *methRec in the context)
+// or tgtFnVal.ZqX(...) (a methRec VALUE in the context: the pointer-receiver methods are found through a copy).
+type methRec struct{ e *env }
+
+func (r *methRec) call(ps ...interface{}) []reflect.Value {
+	in := make([]reflect.Value, len(ps))
+	for i, p := range ps {
+		in[i] = reflect.ValueOf(p).Elem()
+	}
+	return r.e.body(0)(in)
+}
+
+func outStr(out []reflect.Value) string { return out[0].Interface().(string) }
+func outErr(out []reflect.Value) error {
+	err, _ := out[len(out)-1].Interface().(error)
+	return err
+}
+
+func (r *methRec) ZqA() string                                   { return outStr(r.call()) }
+func (r *methRec) ZqB(a string) string                           { return outStr(r.call(&a)) }
+func (r *methRec) ZqC(a interface{}, b int) string               { return outStr(r.call(&a, &b)) }
+func (r *methRec) ZqD(a string, m map[string]interface{}) string { return outStr(r.call(&a, &m)) }
+func (r *methRec) ZqE(hc plush.HelperContext) string             { return outStr(r.call(&hc)) }
+func (r *methRec) ZqF(hc hctx.HelperContext) (string, error) {
+	out := r.call(&hc)
+	return outStr(out), outErr(out)
+}
+func (r *methRec) ZqG(a string, m hctx.Map, hc plush.HelperContext) string {
+	return outStr(r.call(&a, &m, &hc))
+}
+func (r *methRec) ZqH(m map[string]interface{}, hc hctx.HelperContext) string {
+	return outStr(r.call(&m, &hc))
+}
+func (r *methRec) ZqI(xs ...interface{}) string   { return outStr(r.call(&xs)) }
+func (r *methRec) ZqJ(a int, xs ...string) string { return outStr(r.call(&a, &xs)) }
+func (r *methRec) ZqK(p *T) (string, error) {
+	out := r.call(&p)
+	return outStr(out), outErr(out)
+}
+func (r *methRec) ZqL(a interface{}) { r.call(&a) }
+
+type methSig struct {
+	name string
+	sig  Sig
+}
+
+var methSigs = []methSig{
+	{"ZqA", Sig{Res: "(T)", RT: "string"}},
+	{"ZqB", Sig{Fixed: []string{"string"}, Res: "(T)", RT: "string"}},
+	{"ZqC", Sig{Fixed: []string{"any", "int"}, Res: "(T)", RT: "string"}},
+	{"ZqD", Sig{Fixed: []string{"string"}, Map: "map", Res: "(T)", RT: "string"}},
+	{"ZqE", Sig{HC: "struct", Res: "(T)", RT: "string"}},
+	{"ZqF", Sig{HC: "iface", Res: "(T,nil)", RT: "string"}},
+	{"ZqG", Sig{Fixed: []string{"string"}, Map: "hmap", HC: "struct", Res: "(T)", RT: "string"}},
+	{"ZqH", Sig{Map: "map", HC: "iface", Res: "(T)", RT: "string"}},
+	{"ZqI", Sig{Var: "any", Res: "(T)", RT: "string"}},
+	{"ZqJ", Sig{Fixed: []string{"int"}, Var: "string", Res: "(T)", RT: "string"}},
+	{"ZqK", Sig{Fixed: []string{"ptr"}, Res: "(T,err)", RT: "string"}},
+	{"ZqL", Sig{Fixed: []string{"any"}, Res: "()"}},
+}
+
+// methodOf names the method with exactly this signature ("" if there is none).
+func methodOf(s Sig) string {
+	for _, m := range methSigs {
+		if m.sig.String() == s.String() {
+			return m.name
+		}
+	}
+	return ""
 }
 
 func (s Sig) resultText() string { return s.resultTextOf(0) }
@@ -408,6 +616,10 @@ func (s Sig) resultTextOf(tgt int) string {
 		return "Rs" + suffix
 	case "int":
 		return fmt.Sprint(4242 + tgt)
+	case "zint":
+		return "0"
+	case "zstr", "nilany":
+		return ""
 	}
 	return "Ra" + suffix
 }
@@ -419,7 +631,16 @@ type Case struct {
 	Args  []string `json:"args"`  // argument kinds
 	Wrap  uint     `json:"wrap"`  // bit i set: argument i is wrapped in the order-recording identity helper w<i>
 	Block bool     `json:"block"` // the call carries a block
+	// Route: how the template reaches the function. "" tgtFn(...) | ptr: tgtFn holds a POINTER to the function |
+	// index: tgtFnArr[1](...) | key: tgtFnMap["k"](...) | method: tgtFnRec.ZqX(...) | methodv: tgtFnVal.ZqX(...)
+	Route string `json:"route,omitempty"`
+	// Use: what is done with the call's value. "" emitted | silent: <% CALL %> | let: let zv = CALL, zv emitted by a
+	// later tag | cap: zcap(CALL), a helper recording the typed value it receives
+	Use string `json:"use,omitempty"`
 }
+
+var routes = []string{"", "ptr", "index", "key", "method", "methodv"}
+var uses = []string{"", "silent", "let", "cap"}
 
 const blockSrc = `B<%= cvBlk %>E`
 const blockText = "B7E"
@@ -436,10 +657,57 @@ func (c Case) validate() string {
 			return "unknown argument kind " + a
 		}
 	}
+	switch c.Route {
+	case "", "ptr", "index", "key":
+	case "method", "methodv":
+		if methodOf(c.Sig) == "" {
+			return "no method of this signature"
+		}
+	default:
+		return "unknown route"
+	}
+	switch c.Use {
+	case "", "silent", "cap":
+	case "let":
+		if !strings.Contains(c.Sig.Res, "T") || c.Sig.RT == "nilany" {
+			return "use let needs a first result that is not nil"
+		}
+	default:
+		return "unknown use"
+	}
 	return ""
 }
 
-func (c Case) wrapped(i int) bool { return c.Wrap&(1<<uint(i)) != 0 }
+// callee is the spelling of the function in the call; callName is what an error about the call must contain.
+func (c Case) callee() string {
+	switch c.Route {
+	case "index":
+		return fname + "Arr[1]"
+	case "key":
+		return fname + `Map["k"]`
+	case "method":
+		return fname + "Rec." + methodOf(c.Sig)
+	case "methodv":
+		return fname + "Val." + methodOf(c.Sig)
+	}
+	return fname
+}
+
+func (c Case) callName() string {
+	if c.Route == "method" || c.Route == "methodv" {
+		return methodOf(c.Sig)
+	}
+	return fname
+}
+
+// wrapped: the identity helpers are func(interface{}) interface{}; an error VALUE passing through one is the shape of
+// the class any-result-holding-error, so such an argument stays unwrapped while that class is open.
+func (c Case) wrapped(i int) bool {
+	if knownOpen["any-result-holding-error"] && i < len(c.Args) && c.Args[i] == "cvErr" {
+		return false
+	}
+	return c.Wrap&(1<<uint(i)) != 0
+}
 
 func (c Case) Template() string {
 	var parts []string
@@ -450,14 +718,28 @@ func (c Case) Template() string {
 		}
 		parts = append(parts, s)
 	}
-	call := fname + "(" + strings.Join(parts, ", ") + ")"
+	call := c.callee() + "(" + strings.Join(parts, ", ") + ")"
 	if c.Block {
-		return "[<%= " + call + " { %>" + blockSrc + "<% } %>]"
+		call += " { %>" + blockSrc + "<% }"
+	}
+	switch c.Use {
+	case "silent":
+		return "[<% " + call + " %>]"
+	case "let":
+		return "[<% let zv = " + call + " %>][<%= zv %>]"
+	case "cap":
+		return "[<%= zcap(" + call + ") %>]"
 	}
 	return "[<%= " + call + " %>]"
 }
 
-func (c Case) Key() string { return c.Sig.String() + " | " + c.Template() }
+func (c Case) Key() string {
+	k := c.Sig.String() + " | " + c.Template()
+	if c.Route == "ptr" {
+		k += " | through a pointer"
+	}
+	return k
+}
 
 // ---- reference binder (from the property statement) ---------------------------------
 
@@ -466,6 +748,8 @@ type slotWant struct {
 	val      interface{}
 	identity bool // the received value must be the very object held by the context
 	pos      int
+	blk      bool   // autohc: the call carries a block
+	blkText  string // autohc: what that block renders
 }
 
 type expectation struct {
@@ -484,20 +768,27 @@ func fits(v interface{}, pt reflect.Type) bool {
 }
 
 func bind(c Case, e *env) expectation {
-	var x expectation
-	types, roles := c.Sig.params()
-	k, n := len(c.Sig.Fixed), len(c.Args)
-	vals := make([]interface{}, n)
+	vals := make([]interface{}, len(c.Args))
+	ident := make([]bool, len(c.Args))
 	for i, a := range c.Args {
 		vals[i] = e.argValue(a, i)
+		ident[i] = strings.HasPrefix(a, "cv")
 	}
+	return bindVals(c.Sig, vals, ident, c.Block, blockText)
+}
+
+// bindVals is the reference binder: signature x supplied values (x block given, and what the block renders).
+func bindVals(sig Sig, vals []interface{}, ident []bool, block bool, blkText string) expectation {
+	var x expectation
+	types, roles := sig.params()
+	k, n := len(sig.Fixed), len(vals)
 	want := func(i int) slotWant {
 		if vals[i] == nil {
 			return slotWant{mode: "zero", pos: i}
 		}
-		return slotWant{mode: "value", val: vals[i], identity: strings.HasPrefix(c.Args[i], "cv"), pos: i}
+		return slotWant{mode: "value", val: vals[i], identity: ident[i], pos: i}
 	}
-	if c.Sig.Var == "" {
+	if sig.Var == "" {
 		N := len(types)
 		if n > N {
 			x.errClass = "too-many"
@@ -526,7 +817,7 @@ func bind(c Case, e *env) expectation {
 				x.fixed = append(x.fixed, slotWant{mode: "automap", pos: i})
 			case roles[i] == "hc":
 				x.autoHC = true
-				x.fixed = append(x.fixed, slotWant{mode: "autohc", pos: i})
+				x.fixed = append(x.fixed, slotWant{mode: "autohc", pos: i, blk: block, blkText: blkText})
 			default:
 				panic("harness: omitted fixed parameter reached the binder")
 			}
@@ -534,7 +825,7 @@ func bind(c Case, e *env) expectation {
 		return x
 	}
 	// variadic
-	et := varElemTypes[c.Sig.Var]
+	et := varElemTypes[sig.Var]
 	for i := 0; i < n; i++ {
 		pt := et
 		if i < k {
@@ -629,6 +920,13 @@ func sameValue(want, gotv interface{}, pt reflect.Type, identity bool) string {
 		}
 		wv = wv.Convert(gv.Type())
 	}
+	if wv.Kind() == reflect.Func {
+		// funcs are not comparable: the code pointer must be the same (the type already is)
+		if wv.Pointer() != gv.Pointer() {
+			return fmt.Sprintf("received another function than the one supplied (%T)", want)
+		}
+		return ""
+	}
 	if !reflect.DeepEqual(wv.Interface(), gv.Interface()) {
 		return fmt.Sprintf("received %#v, supplied %#v", gotv, want)
 	}
@@ -668,11 +966,14 @@ func (x expectation) compareSlot(c Case, w slotWant, g got, pt reflect.Type, whe
 		if g.block.Panicked() {
 			return fmt.Sprintf("%s: using the supplied helper context panicked: %s", where, g.block)
 		}
-		if g.hasBlock != c.Block {
-			return fmt.Sprintf("%s: helper context HasBlock() = %v, block given = %v", where, g.hasBlock, c.Block)
+		if g.hasBlock != w.blk {
+			return fmt.Sprintf("%s: helper context HasBlock() = %v, block given = %v", where, g.hasBlock, w.blk)
 		}
-		if c.Block && (g.block.Err != nil || g.block.Out != blockText) {
-			return fmt.Sprintf("%s: helper context Block() = %s, want %q", where, g.block, blockText)
+		if w.blk && (g.block.Err != nil || g.block.Out != w.blkText) {
+			return fmt.Sprintf("%s: helper context Block() = %s, want %q", where, g.block, w.blkText)
+		}
+		if w.blk && (g.block2.Err != nil || g.block2.Out != w.blkText) {
+			return fmt.Sprintf("%s: helper context Block() called a second time = %s, want %q", where, g.block2, w.blkText)
 		}
 	}
 	return ""
@@ -683,6 +984,13 @@ func (x expectation) compareSlot(c Case, w slotWant, g got, pt reflect.Type, whe
 func checkCase(r *vk.Run, c Case) *vk.Fail {
 	if m := c.validate(); m != "" {
 		return &vk.Fail{Kind: "decode", Msg: m}
+	}
+	if c.Sig.anyErr() {
+		if knownOpen["any-result-holding-error"] {
+			r.Exclude("any-result-holding-error")
+			return nil
+		}
+		r.Class("any-result-holding-error")
 	}
 	defer r.Watch("call", c)()
 	e := newEnv(c)
@@ -709,6 +1017,9 @@ func checkCase(r *vk.Run, c Case) *vk.Fail {
 	if len(e.calls) > 1 {
 		return fail("the function was invoked %d times", len(e.calls))
 	}
+	if e.decoy {
+		return fail("a function other than the one called was invoked")
+	}
 
 	if x.unspecified != "" {
 		r.Exclude("unspecified")
@@ -724,6 +1035,12 @@ func checkCase(r *vk.Run, c Case) *vk.Fail {
 	if x.nilZero != "" {
 		r.Class("nil-to-zero/" + x.nilZero)
 	}
+	if c.Route != "" {
+		r.Class("route/" + c.Route)
+	}
+	if c.Use != "" {
+		r.Class("use/" + c.Use)
+	}
 	if nt != "" {
 		r.Sample(func() interface{} {
 			return map[string]interface{}{"signature": c.Sig.String(), "template": src, "expected": x.describe(c), "got": res.String(), "invocations": len(e.calls)}
@@ -738,8 +1055,10 @@ func checkCase(r *vk.Run, c Case) *vk.Fail {
 			return fail("the function was invoked")
 		case res.Err == nil:
 			return fail("the render succeeded")
-		case !strings.Contains(res.Err.Error(), fname):
+		case !strings.Contains(res.Err.Error(), c.callName()):
 			return fail("the error does not name the call")
+		case len(e.capSeen) != 0:
+			return fail("the failed call's value was used")
 		}
 		return nil
 	}
@@ -797,19 +1116,103 @@ func checkCase(r *vk.Run, c Case) *vk.Fail {
 		if !errors.Is(res.Err, e.sentinel) {
 			return fail("the render error does not wrap the function's error")
 		}
+		if len(e.capSeen) != 0 {
+			return fail("the failed call's value was used")
+		}
 		return nil
 	}
 	if res.Err != nil {
 		return fail("unexpected render error")
 	}
-	if strings.Contains(c.Sig.Res, "T") {
+	hasT := strings.Contains(c.Sig.Res, "T")
+	if c.Use == "cap" {
+		// the call's value is the first result, with its type
+		if len(e.capSeen) != 1 {
+			return fail("the helper wrapped around the call ran %d times", len(e.capSeen))
+		}
+		wantV := resultValue(c.Sig, 0)
+		if c.Sig.anyErr() {
+			wantV = e.resErr
+		}
+		if c.Sig.anyErr() && e.capSeen[0] != wantV || !reflect.DeepEqual(e.capSeen[0], wantV) {
+			return fail("the call's value was %#v, the first result is %#v", e.capSeen[0], wantV)
+		}
+	}
+	switch {
+	case c.Use == "silent":
+		if res.Out != "[]" {
+			return fail("output must be %q (a tag without = emits nothing)", "[]")
+		}
+	case c.Sig.anyErr():
+		// how an error value prints is not this property's business
+		if !strings.HasPrefix(res.Out, "[") || !strings.HasSuffix(res.Out, "]") {
+			return fail("output lost the surrounding text")
+		}
+	case c.Use == "let":
+		if wantOut := "[][" + c.Sig.resultText() + "]"; res.Out != wantOut {
+			return fail("output must be %q (the first result, held in a variable)", wantOut)
+		}
+	case hasT:
 		if wantOut := "[" + c.Sig.resultText() + "]"; res.Out != wantOut {
 			return fail("output must be %q (the first result)", wantOut)
 		}
-	} else if !strings.HasPrefix(res.Out, "[") || !strings.HasSuffix(res.Out, "]") {
+	case !strings.HasPrefix(res.Out, "[") || !strings.HasSuffix(res.Out, "]"):
 		return fail("output lost the surrounding text")
 	}
 	return nil
+}
+
+// ---- keeping an open defect from flooding the report ------------------------------------------
+
+// A case is "in the open class" when it cannot pass while the defect any-result-holding-error is unrepaired: the
+// function's interface{} result holds an error value, or an error value travels through an identity wrapper (itself a
+// func(interface{}) interface{}). Such cases stay in every space; but after openLimit of them have been reported by
+// the exhaustive spaces the rest is counted under excluded instead of printing thousands of VIOLATION lines, and the
+// random phases that start after that skip the class (decided once per phase, so shrinking stays deterministic).
+// With the defect repaired nothing is ever reported, so nothing is ever skipped.
+const openLimit = 3
+
+var openReported int64
+
+func (c Case) inOpenClass() bool {
+	if c.Sig.anyErr() {
+		return true
+	}
+	for i, a := range c.Args {
+		if a == "cvErr" && c.wrapped(i) {
+			return true
+		}
+	}
+	return false
+}
+
+func (sc SeqCase) inOpenClass() bool {
+	for j := range sc.Sigs {
+		if sc.one(j).inOpenClass() {
+			return true
+		}
+	}
+	return false
+}
+
+// limited is used by the exhaustive spaces, skipOpen by the random phases.
+func limited(r *vk.Run, in bool, f *vk.Fail) *vk.Fail {
+	if f == nil || !in {
+		return f
+	}
+	if atomic.AddInt64(&openReported, 1) > openLimit {
+		r.Exclude("any-result-holding-error: reported already")
+		return nil
+	}
+	return f
+}
+
+func skipOpen(r *vk.Run, in, phaseSkips bool) bool {
+	if in && phaseSkips {
+		r.Exclude("any-result-holding-error: reported already")
+		return true
+	}
+	return false
 }
 
 // ---- one call site, several functions ------------------------------------------------------
@@ -879,6 +1282,12 @@ func (sc SeqCase) Key() string {
 func checkSeq(r *vk.Run, sc SeqCase) *vk.Fail {
 	if m := sc.validate(); m != "" {
 		return &vk.Fail{Kind: "decode", Msg: m}
+	}
+	for _, s := range sc.Sigs {
+		if knownOpen["any-result-holding-error"] && s.anyErr() {
+			r.Exclude("any-result-holding-error")
+			return nil
+		}
 	}
 	defer r.Watch("seq", sc)()
 	e := newEnvSigs(sc.Sigs)
@@ -1004,7 +1413,7 @@ func checkSeq(r *vk.Run, sc SeqCase) *vk.Fail {
 			}
 			return nil
 		}
-		if strings.Contains(c.Sig.Res, "T") {
+		if strings.Contains(c.Sig.Res, "T") && !c.Sig.anyErr() {
 			wantOut.WriteString("[" + c.Sig.resultTextOf(j) + "]")
 		} else {
 			outKnown = false
@@ -1151,9 +1560,9 @@ func genSig(t *rapid.T) Sig {
 	var s Sig
 	k := rapid.IntRange(0, 3).Draw(t, "k")
 	for i := 0; i < k; i++ {
-		s.Fixed = append(s.Fixed, rapid.SampledFrom(fixedNames).Draw(t, "fixed"))
+		s.Fixed = append(s.Fixed, rapid.SampledFrom(allFixedNames).Draw(t, "fixed"))
 	}
-	tl := rapid.SampledFrom(tails).Draw(t, "tail")
+	tl := rapid.SampledFrom(extTails).Draw(t, "tail")
 	s.Map, s.HC, s.Var = tl.m, tl.h, tl.v
 	rs := rapid.SampledFrom(allRes).Draw(t, "res")
 	s.Res, s.RT = rs.res, rs.rt
@@ -1199,6 +1608,655 @@ func genSeq(t *rapid.T, fit map[string][]string) SeqCase {
 	return sc
 }
 
+// ---- several call sites in one template -------------------------------------------------------
+
+// TreeCase is a template with SEVERAL calls of 2-4 recording functions: one after the other, one as an argument of
+// another, one inside the block of another, optionally the whole body inside a loop. A reference evaluation walks the
+// tree and lists the invocations that must happen, in order, each with the values the reference binder demands
+// (nested calls hand their first result to the outer call; an auto-supplied helper context carries THAT call's block,
+// which renders what the walk says it renders - twice, since the recorder calls Block() twice; every auto-supplied
+// options map is empty when its call starts although every recorder writes into the map it was given).
+type TNode struct {
+	Tgt   int     `json:"tgt"`
+	Args  []TArg  `json:"args,omitempty"`
+	Blk   bool    `json:"blk,omitempty"`
+	Block []TItem `json:"block,omitempty"`
+}
+
+type TArg struct {
+	Kind string `json:"kind,omitempty"` // an argument kind, or "loopvar" (the loop variable x)
+	Call *TNode `json:"call,omitempty"` // the argument is itself a call
+}
+
+type TItem struct {
+	Text string `json:"text,omitempty"`
+	Var  bool   `json:"var,omitempty"` // <%= x %>
+	Call *TNode `json:"call,omitempty"`
+}
+
+type TreeCase struct {
+	Sigs  []Sig   `json:"sigs"`
+	Items []TItem `json:"items"`
+	Loop  int     `json:"loop,omitempty"` // > 0: the items are the body of for (x) in xs, xs = [0 .. Loop-1]
+	// Outer > 0 (only with Loop > 0): that loop is itself the body of for (y) in ys with Outer elements, so the inner
+	// loop - and every call site in it - is entered several times
+	Outer int `json:"outer,omitempty"`
+}
+
+func tfn(j int) string { return fmt.Sprintf("fn%d", j) }
+
+func (n *TNode) src() string {
+	var parts []string
+	for i, a := range n.Args {
+		switch {
+		case a.Call != nil:
+			parts = append(parts, a.Call.src())
+		case a.Kind == "loopvar":
+			parts = append(parts, "x")
+		default:
+			parts = append(parts, argSource(a.Kind, i))
+		}
+	}
+	out := tfn(n.Tgt) + "(" + strings.Join(parts, ", ") + ")"
+	if n.Blk {
+		out += " { %>" + itemsSrc(n.Block) + "<% }"
+	}
+	return out
+}
+
+func itemsSrc(items []TItem) string {
+	var b strings.Builder
+	for _, it := range items {
+		switch {
+		case it.Call != nil:
+			b.WriteString("<%= " + it.Call.src() + " %>")
+		case it.Var:
+			b.WriteString("<%= x %>")
+		default:
+			b.WriteString(it.Text)
+		}
+	}
+	return b.String()
+}
+
+func (tc TreeCase) Template() string {
+	body := itemsSrc(tc.Items)
+	if tc.Loop > 0 {
+		body = "<%= for (x) in xs { %>" + body + "<% } %>"
+	}
+	if tc.Outer > 0 {
+		body = "<%= for (y) in ys { %>" + body + "<% } %>"
+	}
+	return body
+}
+
+func (tc TreeCase) Key() string {
+	var ss []string
+	for _, s := range tc.Sigs {
+		ss = append(ss, s.String())
+	}
+	return strings.Join(ss, " ; ") + " | " + tc.Template()
+}
+
+func (tc TreeCase) validate() string {
+	if len(tc.Sigs) < 2 || len(tc.Sigs) > 4 {
+		return "a tree case needs 2-4 signatures"
+	}
+	for _, s := range tc.Sigs {
+		if m := s.validate(); m != "" {
+			return m
+		}
+		if s.anyErr() {
+			return "result type anyerr is not used in trees"
+		}
+	}
+	if tc.Loop < 0 || tc.Loop > 1200 || tc.Outer < 0 || tc.Outer > 4 || tc.Outer > 0 && tc.Loop == 0 {
+		return "bad loop count"
+	}
+	nodes := 0
+	var walkItems func(items []TItem, depth int) string
+	var walkNode func(n *TNode, depth int) string
+	walkNode = func(n *TNode, depth int) string {
+		nodes++
+		if n == nil || depth > 6 || nodes > 64 || n.Tgt < 0 || n.Tgt >= len(tc.Sigs) || len(n.Args) > maxArgs || (!n.Blk && len(n.Block) > 0) {
+			return "bad call node"
+		}
+		for _, a := range n.Args {
+			switch {
+			case a.Call != nil:
+				if m := walkNode(a.Call, depth+1); m != "" {
+					return m
+				}
+			case a.Kind == "loopvar":
+				if tc.Loop == 0 {
+					return "loop variable outside a loop"
+				}
+			case !argKindSet[a.Kind]:
+				return "unknown argument kind " + a.Kind
+			}
+		}
+		return walkItems(n.Block, depth+1)
+	}
+	walkItems = func(items []TItem, depth int) string {
+		for _, it := range items {
+			switch {
+			case it.Call != nil:
+				if m := walkNode(it.Call, depth); m != "" {
+					return m
+				}
+			case it.Var:
+				if tc.Loop == 0 {
+					return "loop variable outside a loop"
+				}
+			default:
+				for _, ch := range it.Text {
+					if !(ch >= 'a' && ch <= 'z' || ch >= '0' && ch <= '9' || ch == ' ' || ch == '.') {
+						return "text items are plain"
+					}
+				}
+			}
+		}
+		return ""
+	}
+	return walkItems(tc.Items, 0)
+}
+
+type wantCall struct {
+	node *TNode
+	x    expectation
+}
+
+type treeEval struct {
+	tc          TreeCase
+	e           *env
+	want        []wantCall
+	x           int // the loop variable
+	depthBlock  int // > 0 while the walk is inside a block
+	unspecified string
+	failed      bool
+	failName    string // a binder error: the error names this call
+	failErr     error  // an error result: the render error wraps it
+}
+
+// resultValue is the first result of target j as a value (nil when there is none, or when it is a nil error).
+func resultValue(s Sig, j int) interface{} {
+	if !strings.Contains(s.Res, "T") {
+		return nil
+	}
+	switch s.RT {
+	case "int":
+		return 4242 + j
+	case "zint":
+		return 0
+	case "nilany":
+		return nil
+	}
+	return s.resultTextOf(j)
+}
+
+func textOf(v interface{}) string {
+	if v == nil {
+		return ""
+	}
+	return fmt.Sprint(v)
+}
+
+func (t *treeEval) stop() bool { return t.failed || t.unspecified != "" }
+
+func (t *treeEval) call(n *TNode) interface{} {
+	sig := t.tc.Sigs[n.Tgt]
+	vals := make([]interface{}, len(n.Args))
+	ident := make([]bool, len(n.Args))
+	nested := false
+	for _, a := range n.Args {
+		nested = nested || a.Call != nil
+	}
+	if nested {
+		// The statement does not say whether, or which, arguments of a call that fails in the binder (arity, an
+		// unassignable argument) are evaluated. The values of nested calls are known beforehand (every target
+		// returns a fixed value), so this is decided before any nested call is walked.
+		pre := make([]interface{}, len(n.Args))
+		for i, a := range n.Args {
+			switch {
+			case a.Call != nil:
+				pre[i] = resultValue(t.tc.Sigs[a.Call.Tgt], a.Call.Tgt)
+			case a.Kind == "loopvar":
+				pre[i] = t.x
+			default:
+				pre[i] = t.e.argValue(a.Kind, i)
+			}
+		}
+		if px := bindVals(sig, pre, ident, n.Blk, ""); px.errClass != "" {
+			t.unspecified = "failing-call-with-calls-as-arguments"
+			return nil
+		}
+	}
+	for i, a := range n.Args {
+		switch {
+		case a.Call != nil:
+			vals[i] = t.call(a.Call)
+			if t.stop() {
+				return nil
+			}
+		case a.Kind == "loopvar":
+			vals[i] = t.x
+		default:
+			vals[i] = t.e.argValue(a.Kind, i)
+			ident[i] = strings.HasPrefix(a.Kind, "cv")
+		}
+	}
+	x := bindVals(sig, vals, ident, n.Blk, "")
+	switch {
+	case x.unspecified != "":
+		t.unspecified = x.unspecified
+		return nil
+	case x.errClass != "" && t.depthBlock > 0:
+		// the recorder does not hand on an error of its block: what the render does then is not ours to say
+		t.unspecified = "failure-inside-a-block"
+		return nil
+	case x.errClass != "":
+		t.failed, t.failName = true, tfn(n.Tgt)
+		return nil
+	}
+	if x.autoHC && n.Blk {
+		// the recorder renders the block twice, before it records its own invocation
+		txt := ""
+		for rep := 0; rep < 2; rep++ {
+			t.depthBlock++
+			txt = t.items(n.Block)
+			t.depthBlock--
+			if t.stop() {
+				return nil
+			}
+		}
+		for i := range x.fixed {
+			if x.fixed[i].mode == "autohc" {
+				x.fixed[i].blkText = txt
+			}
+		}
+	}
+	t.want = append(t.want, wantCall{node: n, x: x})
+	if strings.Contains(sig.Res, "err") {
+		if t.depthBlock > 0 {
+			t.unspecified = "failure-inside-a-block"
+			return nil
+		}
+		t.failed, t.failErr = true, t.e.sentinels[n.Tgt]
+		return nil
+	}
+	return resultValue(sig, n.Tgt)
+}
+
+func (t *treeEval) items(items []TItem) string {
+	var b strings.Builder
+	for _, it := range items {
+		switch {
+		case it.Call != nil:
+			v := t.call(it.Call)
+			if t.stop() {
+				return ""
+			}
+			b.WriteString(textOf(v))
+		case it.Var:
+			b.WriteString(fmt.Sprint(t.x))
+		default:
+			b.WriteString(it.Text)
+		}
+	}
+	return b.String()
+}
+
+func checkTree(r *vk.Run, tc TreeCase) *vk.Fail {
+	if m := tc.validate(); m != "" {
+		return &vk.Fail{Kind: "decode", Msg: m}
+	}
+	defer r.Watch("tree", tc)()
+	e := newEnvSigs(tc.Sigs)
+	if tc.Loop > 0 {
+		xs := make([]int, tc.Loop)
+		for i := range xs {
+			xs[i] = i
+		}
+		e.data["xs"] = xs
+	}
+	if tc.Outer > 0 {
+		e.data["ys"] = make([]int, tc.Outer)
+	}
+	src := tc.Template()
+	res := vk.Safe(func() (string, error) { return plush.Render(src, plush.NewContextWith(e.data)) })
+	if e.harness != nil {
+		panic(fmt.Sprintf("harness defect: the recorder panicked: %v (case %s)", e.harness, tc.Key()))
+	}
+	t := &treeEval{tc: tc, e: e}
+	var wantOut strings.Builder
+	outer := tc.Outer
+	if outer == 0 {
+		outer = 1
+	}
+	for y := 0; y < outer && !t.stop(); y++ {
+		if tc.Loop > 0 {
+			for t.x = 0; t.x < tc.Loop && !t.stop(); t.x++ {
+				wantOut.WriteString(t.items(tc.Items))
+			}
+		} else {
+			wantOut.WriteString(t.items(tc.Items))
+		}
+	}
+	if t.unspecified != "" {
+		r.Exclude("unspecified")
+		r.Count("", "tree/unspecified/"+t.unspecified)
+		return nil
+	}
+	cls := "tree/ok"
+	switch {
+	case t.failName != "":
+		cls = "tree/binder-error"
+	case t.failed:
+		cls = "tree/error-result"
+	}
+	if tc.Loop > 0 {
+		cls += "/loop"
+	}
+	if tc.Outer > 0 {
+		cls += "-in-loop"
+	}
+	r.Count(tc.Key(), cls)
+	r.Sample(func() interface{} {
+		return map[string]interface{}{"signatures": tc.Key(), "template": src, "expected invocations": len(t.want), "class": cls, "got": res.String()}
+	})
+	fail := func(f string, a ...interface{}) *vk.Fail {
+		var got []string
+		for _, c := range e.calls {
+			got = append(got, tfn(c.tgt))
+		}
+		var want []string
+		for _, w := range t.want {
+			want = append(want, tfn(w.node.Tgt))
+		}
+		short := func(l []string) string {
+			if len(l) > 16 {
+				return fmt.Sprintf("%v ... (%d in all)", l[:16], len(l))
+			}
+			return fmt.Sprint(l)
+		}
+		return &vk.Fail{Kind: "tree", Class: cls, Case: tc,
+			Msg: fmt.Sprintf("%s: %s; invocations expected %s, happened %s; render gave %s", tc.Key(), fmt.Sprintf(f, a...), short(want), short(got), vk.Text(oneLine(res.String(), 300)))}
+	}
+	if res.Panicked() {
+		return fail("the render panicked")
+	}
+	for i, w := range t.want {
+		if i >= len(e.calls) {
+			return fail("invocation %d (%s) did not happen", i, w.node.src())
+		}
+		inv := e.calls[i]
+		if inv.tgt != w.node.Tgt {
+			return fail("invocation %d must be %s, was %s", i, w.node.src(), tfn(inv.tgt))
+		}
+		sig := tc.Sigs[w.node.Tgt]
+		types, _ := sig.params()
+		if len(inv.fixed) != len(w.x.fixed) {
+			panic("harness: fixed parameter count mismatch")
+		}
+		one := Case{Sig: sig, Block: w.node.Blk}
+		for k, sw := range w.x.fixed {
+			if m := w.x.compareSlot(one, sw, inv.fixed[k], types[k], fmt.Sprintf("parameter %d", k)); m != "" {
+				return fail("invocation %d, %s: %s", i, w.node.src(), m)
+			}
+		}
+		if len(inv.variadic) != len(w.x.variadic) {
+			return fail("invocation %d, %s: the variadic parameter received %d values, %d were supplied", i, w.node.src(), len(inv.variadic), len(w.x.variadic))
+		}
+		for k, sw := range w.x.variadic {
+			if m := w.x.compareSlot(one, sw, inv.variadic[k], varElemTypes[sig.Var], fmt.Sprintf("variadic element %d", k)); m != "" {
+				return fail("invocation %d, %s: %s", i, w.node.src(), m)
+			}
+		}
+	}
+	if len(e.calls) > len(t.want) {
+		return fail("%d invocations more than expected", len(e.calls)-len(t.want))
+	}
+	switch {
+	case t.failName != "":
+		if res.Err == nil {
+			return fail("the call of %s must fail the render", t.failName)
+		}
+		if !strings.Contains(res.Err.Error(), t.failName) {
+			return fail("the error does not name the call of %s", t.failName)
+		}
+	case t.failed:
+		if res.Err == nil {
+			return fail("a function returned a non-nil error, the render must fail")
+		}
+		if !errors.Is(res.Err, t.failErr) {
+			return fail("the render error does not wrap the function's error")
+		}
+	case res.Err != nil:
+		return fail("unexpected render error")
+	case res.Out != wantOut.String():
+		return fail("output must be %q", wantOut.String())
+	}
+	return nil
+}
+
+// canonArgs: one well-typed literal argument per fixed parameter (and one variadic element), rotated by rot.
+func canonArgs(s Sig, rot int) []TArg {
+	var out []TArg
+	n := len(s.Fixed)
+	if s.Var != "" {
+		n++
+	}
+	for i := 0; i < n; i++ {
+		cs := canon[s.paramNameAt(i)]
+		out = append(out, TArg{Kind: cs[(i+rot)%len(cs)]})
+	}
+	return out
+}
+
+// treePool: the signatures combined exhaustively in the fixed tree shapes.
+var treePool = []Sig{
+	{Fixed: []string{"any"}, Res: "(T)", RT: "string"},
+	{Fixed: []string{"string"}, Map: "map", HC: "struct", Res: "(T)", RT: "string"},
+	{HC: "iface", Res: "(T,nil)", RT: "string"},
+	{Var: "any", Res: "(T)", RT: "string"},
+	{Fixed: []string{"any"}, Var: "string", Res: "(T)", RT: "string"},
+	{Map: "hmap", HC: "iface", Res: "(T)", RT: "int"},
+	{Fixed: []string{"string"}, Res: "(T)", RT: "any"},
+	{Fixed: []string{"any", "any"}, HC: "struct", Res: "(T)", RT: "string"},
+	{Fixed: []string{"int"}, Map: "map", Res: "(T)", RT: "int"},
+	{Map: "map", Res: "()"},
+}
+
+// treeShapes: the fixed shapes for an ordered pair of signatures (A = fn0, B = fn1).
+func treeShapes(a, b Sig, rot int) []TreeCase {
+	sigs := []Sig{a, b}
+	A := func(blk bool, block ...TItem) *TNode {
+		return &TNode{Tgt: 0, Args: canonArgs(a, rot), Blk: blk, Block: block}
+	}
+	B := func(blk bool, block ...TItem) *TNode {
+		return &TNode{Tgt: 1, Args: canonArgs(b, rot+1), Blk: blk, Block: block}
+	}
+	txt := func(s string) TItem { return TItem{Text: s} }
+	call := func(n *TNode) TItem { return TItem{Call: n} }
+	withArg := func(n *TNode, i int, arg TArg) *TNode {
+		if i < len(n.Args) {
+			n.Args[i] = arg
+		} else {
+			n.Args = append(n.Args, arg)
+		}
+		return n
+	}
+	var out []TreeCase
+	add := func(loop int, items ...TItem) { out = append(out, TreeCase{Sigs: sigs, Items: items, Loop: loop}) }
+	// one after the other, each with its own block, then the first again without a block
+	add(0, call(A(true, txt("pa"))), txt("t"), call(B(true, txt("pb"))), call(A(false)), call(B(false)))
+	// the same two sites without blocks first (nothing may be left over for the calls that follow)
+	add(0, call(A(false)), call(B(true, txt("pb"))), call(A(true, txt("pa"))))
+	// B as the first / as the last argument of A, A carrying a block
+	add(0, call(withArg(A(true, txt("u")), 0, TArg{Call: B(false)})), txt("v"))
+	add(0, call(withArg(A(true, txt("u")), len(canonArgs(a, rot))-1+btoi(len(canonArgs(a, rot)) == 0), TArg{Call: B(false)})))
+	// B with a block of its own as an argument of A with another block
+	add(0, call(withArg(A(true, txt("outer")), 0, TArg{Call: B(true, txt("inner"))})))
+	// B inside the block of A; A again inside the block of B inside the block of A
+	add(0, call(A(true, txt("t"), call(B(true, txt("u"))), txt("v"))), call(B(false)))
+	add(0, call(A(true, call(B(true, call(A(true, txt("w"))), txt("z"))))))
+	// in a loop: the block shows the loop variable; the loop variable as first argument
+	add(3, call(A(true, txt("i"), TItem{Var: true})), call(B(true, TItem{Var: true}, TItem{Var: true})))
+	add(2, call(withArg(A(true, TItem{Var: true}), 0, TArg{Kind: "loopvar"})), txt("."), call(B(false)))
+	add(2, call(A(true, call(withArg(B(true, TItem{Var: true}), 0, TArg{Kind: "loopvar"})))))
+	// the loop entered twice: every site in it runs again in a fresh loop scope
+	add(2, call(A(true, TItem{Var: true})), call(B(true, txt("k"), TItem{Var: true})))
+	out[len(out)-1].Outer = 2
+	add(3, call(withArg(A(true, TItem{Var: true}, call(B(true, TItem{Var: true}))), 0, TArg{Kind: "loopvar"})))
+	out[len(out)-1].Outer = 2
+	return out
+}
+
+// longTrees: 1100 iterations of a loop whose body calls with a block, without a block, with a call as argument and
+// with a call inside the block.
+func longTrees() []TreeCase {
+	sigs := []Sig{{Fixed: []string{"any"}, HC: "struct", Res: "(T)", RT: "string"}, {Map: "map", HC: "iface", Res: "(T)", RT: "int"}}
+	x := TArg{Kind: "loopvar"}
+	return []TreeCase{
+		{Sigs: sigs, Loop: 1100, Items: []TItem{{Call: &TNode{Tgt: 0, Args: []TArg{x}, Blk: true, Block: []TItem{{Var: true}}}}}},
+		{Sigs: sigs, Loop: 1100, Items: []TItem{{Call: &TNode{Tgt: 0, Args: []TArg{x}}}, {Text: "."}}},
+		{Sigs: sigs, Loop: 1100, Items: []TItem{{Call: &TNode{Tgt: 0, Args: []TArg{{Call: &TNode{Tgt: 1}}}}}}},
+		{Sigs: sigs, Loop: 550, Items: []TItem{{Call: &TNode{Tgt: 0, Args: []TArg{x}, Blk: true, Block: []TItem{{Call: &TNode{Tgt: 1, Blk: true, Block: []TItem{{Var: true}}}}}}}}},
+	}
+}
+
+func oneLine(s string, max int) string {
+	if len(s) > max {
+		return s[:max] + "..."
+	}
+	return s
+}
+
+func btoi(b bool) int {
+	if b {
+		return 1
+	}
+	return 0
+}
+
+var fitEnv = newEnvSigs([]Sig{{Res: "()"}})
+
+func genTree(t *rapid.T, fit map[string][]string) TreeCase {
+	tc := TreeCase{}
+	ns := rapid.IntRange(2, 4).Draw(t, "nsigs")
+	for j := 0; j < ns; j++ {
+		s := genSig(t)
+		if s.anyErr() {
+			s.RT = "any"
+		}
+		if strings.Contains(s.Res, "err") && rapid.IntRange(0, 5).Draw(t, "keep-error") != 0 {
+			s.Res = strings.Replace(s.Res, "err", "nil", 1)
+		}
+		tc.Sigs = append(tc.Sigs, s)
+	}
+	if rapid.IntRange(0, 2).Draw(t, "looped") == 0 {
+		tc.Loop = rapid.IntRange(1, 3).Draw(t, "loop")
+		if rapid.IntRange(0, 2).Draw(t, "outer-loop") == 0 {
+			tc.Outer = rapid.IntRange(1, 3).Draw(t, "outer")
+		}
+	}
+	budget := 10
+	var node func(depth, force int) *TNode
+	var items func(depth, max int) []TItem
+	node = func(depth, force int) *TNode {
+		budget--
+		n := &TNode{Tgt: force}
+		if force < 0 {
+			n.Tgt = rapid.IntRange(0, ns-1).Draw(t, "tgt")
+		}
+		s := tc.Sigs[n.Tgt]
+		types, _ := s.params()
+		lo, hi := len(s.Fixed), len(types)
+		if s.Var != "" {
+			hi = lo + 2
+		}
+		if rapid.IntRange(0, 11).Draw(t, "one-more") == 0 {
+			hi++
+		}
+		if hi > maxArgs {
+			hi = maxArgs
+		}
+		cnt := rapid.IntRange(lo, hi).Draw(t, "n")
+		for i := 0; i < cnt; i++ {
+			name := s.paramNameAt(i)
+			switch pick := rapid.IntRange(0, 9).Draw(t, "arg-class"); {
+			case pick < 3 && depth < 3 && budget > 0:
+				// a nested call whose result fits the parameter, if some target has one (a binder failure around
+				// nested calls is not judged); one time in eight any target
+				force := -1
+				if pt := s.paramTypeAt(i); pt != nil && rapid.IntRange(0, 7).Draw(t, "any-target") != 0 {
+					var cands []int
+					for j, sj := range tc.Sigs {
+						if fits(resultValue(sj, j), pt) {
+							cands = append(cands, j)
+						}
+					}
+					if len(cands) == 0 {
+						n.Args = append(n.Args, TArg{Kind: rapid.SampledFrom(fit[name]).Draw(t, "arg")})
+						continue
+					}
+					force = cands[rapid.IntRange(0, len(cands)-1).Draw(t, "fitting-target")]
+				}
+				sub := node(depth+1, force)
+				n.Args = append(n.Args, TArg{Call: sub})
+			case pick == 3 && tc.Loop > 0:
+				n.Args = append(n.Args, TArg{Kind: "loopvar"})
+			case pick == 4 || name == "":
+				n.Args = append(n.Args, TArg{Kind: rapid.SampledFrom(argKinds).Draw(t, "arg")})
+			default:
+				n.Args = append(n.Args, TArg{Kind: rapid.SampledFrom(fit[name]).Draw(t, "arg")})
+			}
+		}
+		nested := false
+		for _, a := range n.Args {
+			nested = nested || a.Call != nil
+		}
+		if nested && rapid.IntRange(0, 9).Draw(t, "leave-misfits") != 0 {
+			// a binder failure around nested calls is not judged: make the remaining arguments fit
+			if max := len(types); s.Var == "" && len(n.Args) > max {
+				n.Args = n.Args[:max]
+			}
+			for i, a := range n.Args {
+				pt := s.paramTypeAt(i)
+				if a.Call != nil || pt == nil {
+					continue
+				}
+				if a.Kind == "loopvar" && !fits(0, pt) || a.Kind != "loopvar" && !fits(fitEnv.argValue(a.Kind, i), pt) {
+					n.Args[i] = TArg{Kind: rapid.SampledFrom(fit[s.paramNameAt(i)]).Draw(t, "refit")}
+				}
+			}
+		}
+		if rapid.Bool().Draw(t, "blk") {
+			n.Blk = true
+			n.Block = items(depth+1, 3)
+		}
+		return n
+	}
+	items = func(depth, max int) []TItem {
+		var out []TItem
+		cnt := rapid.IntRange(0, max).Draw(t, "items")
+		for i := 0; i < cnt; i++ {
+			switch pick := rapid.IntRange(0, 5).Draw(t, "item-class"); {
+			case pick < 3 && depth < 3 && budget > 0:
+				out = append(out, TItem{Call: node(depth, -1)})
+			case pick == 3 && tc.Loop > 0:
+				out = append(out, TItem{Var: true})
+			default:
+				out = append(out, TItem{Text: rapid.SampledFrom([]string{"a", "bb", "c ", ".", "t9"}).Draw(t, "text")})
+			}
+		}
+		return out
+	}
+	tc.Items = append(tc.Items, TItem{Call: node(0, -1)})
+	tc.Items = append(tc.Items, items(0, 3)...)
+	return tc
+}
+
 // ---- generators -----------------------------------------------------------------------
 
 // fitting[typeKey] lists the argument kinds acceptable for a parameter type (by the reference rule).
@@ -1218,6 +2276,8 @@ var canon = map[string][]string{
 	"string": {"str", "cvStr", "nil"}, "int": {"int", "cvInt", "nil"}, "float64": {"float", "cvFloat", "nil"},
 	"bool": {"true", "false", "cvBool"}, "any": {"hash", "array", "cvI8", "nil", "str", "cvNilPtr"}, "ptr": {"cvPtr", "cvNilPtr", "nil"},
 	"ints": {"cvInts", "nil"}, "map": {"hash", "cvHMap", "nil"}, "hmap": {"hash", "cvHMap", "nil"}, "struct": {"nil"}, "iface": {"nil"},
+	"stringer": {"cvStringer", "nil"}, "err": {"cvErr", "nil"}, "i64": {"cvI64", "nil"}, "mystr": {"cvMyStr", "nil"},
+	"anys": {"array", "cvAnys", "nil"}, "tval": {"cvT", "nil"}, "fn": {"cvFn", "nil"},
 }
 
 // paramNameAt names the parameter type an argument at position i meets ("" beyond the last parameter).
@@ -1238,9 +2298,24 @@ func (s Sig) paramNameAt(i int) string {
 	return ""
 }
 
+// paramTypeAt is the type an argument at position i meets (nil beyond the last parameter).
+func (s Sig) paramTypeAt(i int) reflect.Type {
+	types, _ := s.params()
+	if i < len(types) {
+		return types[i]
+	}
+	if s.Var != "" {
+		return varElemTypes[s.Var]
+	}
+	return nil
+}
+
 func allWrapped(n int) uint { return (1 << uint(n)) - 1 }
 
 type tail struct{ m, h, v string }
+
+// extTails adds a variadic tail whose element type is a non-empty interface (slot matrix and random phases).
+var extTails = append(append([]tail{}, tails...), tail{v: "stringer"})
 
 var tails = []tail{{}, {m: "map"}, {m: "hmap"}, {h: "struct"}, {h: "iface"}, {m: "map", h: "struct"}, {m: "hmap", h: "iface"},
 	{m: "map", h: "iface"}, {m: "hmap", h: "struct"}, {v: "int"}, {v: "string"}, {v: "any"}}
@@ -1248,7 +2323,9 @@ var tails = []tail{{}, {m: "map"}, {m: "hmap"}, {h: "struct"}, {h: "iface"}, {m:
 type resT struct{ res, rt string }
 
 var allRes = []resT{{"()", ""}, {"(T)", "string"}, {"(T)", "int"}, {"(T)", "any"}, {"(T,nil)", "string"}, {"(T,nil)", "int"}, {"(T,nil)", "any"},
-	{"(T,err)", "string"}, {"(T,err)", "int"}, {"(T,err)", "any"}, {"(nil)", ""}, {"(err)", ""}}
+	{"(T,err)", "string"}, {"(T,err)", "int"}, {"(T,err)", "any"}, {"(nil)", ""}, {"(err)", ""},
+	{"(T)", "anyerr"}, {"(T,nil)", "anyerr"}, {"(T,err)", "anyerr"},
+	{"(T)", "zint"}, {"(T)", "zstr"}, {"(T)", "nilany"}, {"(T,nil)", "zint"}, {"(T,nil)", "zstr"}, {"(T,nil)", "nilany"}}
 
 // E1: one parameter slot x every argument kind
 func slotMatrix() []Case {
@@ -1278,7 +2355,7 @@ func slotMatrix() []Case {
 		}
 	}
 	for p := 0; p < 3; p++ {
-		for _, f := range fixedNames {
+		for _, f := range allFixedNames {
 			emit(Sig{Fixed: append(anyN(p), f), Res: "(T)", RT: "string"}, ints(p))
 		}
 		for _, m := range []string{"map", "hmap"} {
@@ -1288,7 +2365,7 @@ func slotMatrix() []Case {
 			emit(Sig{Fixed: anyN(p), HC: h, Res: "(T)", RT: "string"}, ints(p))
 		}
 	}
-	for _, v := range []string{"int", "string", "any"} {
+	for _, v := range []string{"int", "string", "any", "stringer"} {
 		for p := 0; p < 2; p++ {
 			for j := 0; j < 3; j++ {
 				pre := ints(p)
@@ -1309,7 +2386,7 @@ func arityMatrix(rots int) []Case {
 		for k := 0; k <= 3; k++ {
 			var fixed []string
 			for j := 0; j < k; j++ {
-				fixed = append(fixed, fixedNames[(rot+2*j)%len(fixedNames)])
+				fixed = append(fixed, allFixedNames[(rot+2*j)%len(allFixedNames)])
 			}
 			for _, tl := range tails {
 				for _, rs := range allRes {
@@ -1359,7 +2436,7 @@ type product struct {
 }
 
 func newProduct(maxFixed, maxN int) *product {
-	p := &product{kinds: argKinds, maxN: maxN}
+	p := &product{kinds: coreArgKinds, maxN: maxN}
 	var lists [][]string
 	lists = append(lists, nil)
 	prev := [][]string{nil}
@@ -1444,18 +2521,96 @@ func genCase(t *rapid.T, fit map[string][]string) Case {
 		}
 	}
 	c.Wrap = uint(rapid.IntRange(0, int(allWrapped(n))).Draw(t, "wrap"))
+	if rapid.IntRange(0, 2).Draw(t, "routed") == 0 {
+		c.Route = rapid.SampledFrom(routes[:4]).Draw(t, "route")
+	}
+	if rapid.IntRange(0, 2).Draw(t, "used") == 0 {
+		c.Use = rapid.SampledFrom(uses).Draw(t, "use")
+		if c.Use == "let" && (!strings.Contains(s.Res, "T") || s.RT == "nilany") {
+			c.Use = "cap"
+		}
+	}
 	return c
+}
+
+// E4: every route to the function x every use of the call's value, over the twelve signatures that also exist as
+// methods: 0..N+1 well-typed arguments, and every argument slot once with every core argument kind.
+func routeMatrix() []Case {
+	var out []Case
+	for _, ms := range methSigs {
+		s := ms.sig
+		types, _ := s.params()
+		maxN := len(types) + 1
+		if s.Var != "" {
+			maxN = len(s.Fixed) + 2
+		}
+		var lists [][]string
+		for n := 0; n <= maxN; n++ {
+			var args []string
+			for i := 0; i < n; i++ {
+				name := s.paramNameAt(i)
+				if name == "" {
+					args = append(args, "int")
+					continue
+				}
+				args = append(args, canon[name][(i+n)%len(canon[name])])
+			}
+			lists = append(lists, args)
+			if n > 0 && n < maxN || s.Var != "" && n > 0 {
+				for _, k := range coreArgKinds { // the last slot with every kind
+					lists = append(lists, append(append([]string{}, args[:n-1]...), k))
+				}
+			}
+		}
+		for _, route := range routes {
+			for _, use := range uses {
+				if use == "let" && !strings.Contains(s.Res, "T") {
+					continue
+				}
+				for li, args := range lists {
+					for _, blk := range []bool{false, true} {
+						w := allWrapped(len(args))
+						if (li+len(out))%3 == 0 {
+							w = 0
+						}
+						out = append(out, Case{Sig: s, Args: args, Wrap: w, Block: blk, Route: route, Use: use})
+					}
+				}
+			}
+		}
+	}
+	return out
 }
 
 // ---- the test ---------------------------------------------------------------------------
 
-const rule = "Signatures: 0-3 fixed parameters from {string,int,float64,bool,interface{},*T,[]int}, then optionally a trailing options map (map[string]interface{} | hctx.Map) and/or a helper context (plush.HelperContext struct | hctx.HelperContext interface), or a variadic tail (...int|...string|...interface{}); results (), (T), (T,error) and (error) with nil and non-nil error, T in {string,int,interface{}}. The function is built with reflect.MakeFunc and records every invocation (received values, HasBlock(), Block()). Calls: 0-6 arguments from {string, int, float, true, false, nil, hash literal, array literal, context variables: string, int, float64, bool, *T, typed nil *T, []int, int8, named string, hctx.Map}, literal values depend on the position; each argument optionally wrapped in an order-recording identity helper; with and without a block. (E1) every parameter slot type (fixed at positions 0-2, options map, helper context, variadic element 0-2) x every argument kind x block x wrapped/unwrapped; (E2) arity matrix: 0-3 fixed x 12 tails x 12 result shapes x 0..N+1 well-typed arguments x block x wrapped/unwrapped, parameter types rotated; (E3) full product of all signatures with <= K fixed parameters x 12 tails with all calls of <= n arguments of 18 kinds x block; (R) random signature x call, arguments biased to fit. Oracle = reference binder from the statement: invoked exactly once with exactly the supplied values in order (nil => zero value, omitted trailing map => a map that is empty at the moment of the call, and the recorder writes an entry into every empty map it receives, as option-defaulting helpers do, omitted helper context => HasBlock()==block given and Block() renders the block, variadic gets the rest), or not invoked and an error containing the function name (too many arguments / not assignable); first result emitted; non-nil error => errors.Is. Arguments evaluated at most once, left to right, on every path; exactly once on success. Unspecified (not asserted beyond evaluation order): fewer arguments than fixed parameters. Non-trivial = specified and (at least one argument or an auto-supplied parameter). Distinct by signature + template. SEQUENCES: one call site tgtFn(ARGS) is executed 2-3 times within one render, the callee resolving to a recording function of a different signature each time (loop: for (tgtFn) in fns; let: for (i) in idx { let tgtFn = fns[i] }; ufn: the site sits in a template-defined function called again after tgtFn is reassigned). The reference binder is applied to every execution independently against the chronological log of wrapper evaluations and invocations: everything up to the first execution that must fail (or returns a non-nil error) must have happened exactly, nothing after it; a sequence stops being judged at the first unspecified execution. (S1) all ordered pairs of signatures (<= 1 fixed parameter x 12 tails) x all calls of <= 2 arguments of a reduced kind set; (S2) ordered pairs over 0-K fixed x 12 tails x 4 result shapes with arguments well typed for either member; (SR) random 2-3 signatures. Sequence cases are non-trivial when the function types differ."
+const rule = "Signatures: 0-3 fixed parameters from {string,int,float64,bool,interface{},*T,[]int} (core; the slot matrix, the arity matrix and the random phases add fmt.Stringer, error, int64, a named string type, []interface{}, a struct by value, func(int) int), then optionally a trailing options map (map[string]interface{} | hctx.Map) and/or a helper context (plush.HelperContext struct | hctx.HelperContext interface), or a variadic tail (...int|...string|...interface{}|...fmt.Stringer); results (), (T), (T,error) and (error) with nil and non-nil error, T in {string,int,interface{}} returning a fixed non-zero value, plus T returning the zero value (0, the empty string, a nil interface{}) and interface{} returning an ERROR VALUE (shape (T): no error result, the value is the call's value - class any-result-holding-error). The function is built with reflect.MakeFunc (twelve signatures also exist as hand-written methods) and records every invocation (received values, HasBlock(), Block() called twice). Calls: 0-6 arguments from {string, int, float, true, false, nil, hash literal, array literal, context variables: string, int, float64, bool, *T, typed nil *T, []int, int8, named string, hctx.Map} (core) plus {typed nil map, typed nil slice, error value, fmt.Stringer, struct value, []interface{}, func value, int64, template.HTML, uint, and the expressions a + b, string + string, a == b, !false, slice[i], pointer.Field, map[key], (n)}, literal values depend on the position; each argument optionally wrapped in an order-recording identity helper; with and without a block. ROUTES to the function: by name, through a pointer to the func, as element of a slice (tgtFnArr[1](...), decoys around it), as value of a map, as method through a pointer and through a struct value held in the context. USES of the call's value: emitted, silent tag (must emit nothing), let then emitted by a later tag, argument of a recording helper (the TYPED first result must arrive). (E1) every parameter slot type (fixed at positions 0-2, options map, helper context, variadic element 0-2) x every argument kind x block x wrapped/unwrapped; (E2) arity matrix: 0-3 fixed x 12 tails x 21 result shapes x 0..N+1 well-typed arguments x block x wrapped/unwrapped, parameter types rotated; (E4) 12 method signatures x 6 routes x 4 uses x (0..N+1 well-typed arguments + last slot with every core kind) x block; (E5) 21 result shapes x 4 uses x 3 tails x block; (E3) full product of all signatures with <= K core fixed parameters x 12 tails with all calls of <= n arguments of the 18 core kinds x block; (R) random signature x call x route x use, arguments biased to fit. Oracle = reference binder from the statement: invoked exactly once with exactly the supplied values in order (nil => zero value, omitted trailing map => a map that is empty at the moment of the call, and the recorder writes an entry into every empty map it receives, as option-defaulting helpers do, omitted helper context => HasBlock()==block given and Block() renders the block, both times it is called, variadic gets the rest), or not invoked and an error containing the function (method) name (too many arguments / not assignable); first result is the value; non-nil error => errors.Is. Arguments evaluated at most once, left to right, on every path; exactly once on success. Unspecified (not asserted beyond evaluation order): fewer arguments than fixed parameters. Non-trivial = specified and (at least one argument or an auto-supplied parameter). Distinct by signature + template. SEQUENCES: one call site tgtFn(ARGS) is executed 2-3 times within one render, the callee resolving to a recording function of a different signature each time (loop: for (tgtFn) in fns; let: for (i) in idx { let tgtFn = fns[i] }; ufn: the site sits in a template-defined function called again after tgtFn is reassigned). The reference binder is applied to every execution independently against the chronological log of wrapper evaluations and invocations: everything up to the first execution that must fail (or returns a non-nil error) must have happened exactly, nothing after it; a sequence stops being judged at the first unspecified execution. (S1) all ordered pairs of signatures (<= 1 fixed parameter x 12 tails) x all calls of <= 2 arguments of a reduced kind set; (S2) ordered pairs over 0-K fixed x 12 tails x 4 result shapes with arguments well typed for either member; (SR) random 2-3 signatures. Sequence cases are non-trivial when the function types differ. TREES: one template with SEVERAL calls of 2-4 recording functions: one after the other (each with its own block, then again without), a call as an argument of a call (the outer receives the inner's typed first result; a block belongs to the call it follows), calls inside the block of a call (three levels), the body optionally inside for (x) in xs with blocks and arguments showing x, that loop optionally entered several times from an outer loop, and four loops of 550-1100 iterations. A reference walk lists the invocations that must happen, in order (arguments, then the block twice, then the call itself), each judged by the reference binder; the walk stops at the first call that must fail (binder error: the error names it; error result: errors.Is) and nothing may happen after it; output = texts + first results. Not judged: a call that fails in the binder while it has calls among its arguments (which arguments are evaluated then is not stated), a failure inside a block (the recorder swallows Block()'s error). (T1) ordered pairs of 10 signatures x 12 shapes; (TR) random trees. Tree cases are always non-trivial."
 
 func setup(t *testing.T) *vk.Run {
 	r := vk.Start(t, "C12", rule,
 		"the values of literals are those of the language (string, int, float64, bool, nil, map[string]interface{}, []interface{}); for wrapped arguments this is additionally confirmed by what the identity helper received",
 		"assignable means reflect's AssignableTo on the dynamic type of the argument value",
-		"the order-recording identity helpers are themselves Go helpers func(interface{}) interface{} called through the mechanism under test; every space is therefore also run with unwrapped arguments")
+		"the order-recording identity helpers are themselves Go helpers func(interface{}) interface{} called through the mechanism under test; every space is therefore also run with unwrapped arguments",
+		"a result DECLARED interface{} whose value happens to be an error is shape (T): the statement's 'non-nil trailing error result' is a result of type error (shapes (T, error) and (error))",
+		"the values of the expression arguments (a + b, a == b, !false, slice[i], pointer.Field, map[key]) are those of the language (C06, C11)",
+		"a silent tag emits nothing (C02); a block renders its text and the values it emits, inside a loop with the loop variable of the current iteration (C08, C09)")
+	for _, ms := range methSigs { // harness self-test: the hand-written methods have the signatures the table says
+		m, ok := reflect.TypeOf(&methRec{}).MethodByName(ms.name)
+		want := ms.sig.funcType()
+		if !ok || m.Type.NumIn() != want.NumIn()+1 || m.Type.NumOut() != want.NumOut() || m.Type.IsVariadic() != want.IsVariadic() {
+			panic("harness: method table out of step with the methods: " + ms.name)
+		}
+		for i := 0; i < want.NumIn(); i++ {
+			if m.Type.In(i+1) != want.In(i) {
+				panic("harness: method table out of step with the methods: " + ms.name)
+			}
+		}
+		for i := 0; i < want.NumOut(); i++ {
+			if m.Type.Out(i) != want.Out(i) {
+				panic("harness: method table out of step with the methods: " + ms.name)
+			}
+		}
+	}
 	r.Replayer("call", func(raw json.RawMessage) *vk.Fail {
 		var c Case
 		if f := vk.Decode(raw, &c); f != nil {
@@ -1469,6 +2624,13 @@ func setup(t *testing.T) *vk.Run {
 			return f
 		}
 		return checkSeq(r, c)
+	})
+	r.Replayer("tree", func(raw json.RawMessage) *vk.Fail {
+		var c TreeCase
+		if f := vk.Decode(raw, &c); f != nil {
+			return f
+		}
+		return checkTree(r, c)
 	})
 	return r
 }
@@ -1504,16 +2666,36 @@ func TestProp(t *testing.T) {
 
 	run := func(name string, cases []Case) {
 		r.Subspace(name, int64(len(cases)), true)
-		r.Parallel(int64(len(cases)), 0, func(i int64) { r.Check(checkCase(r, cases[i])) })
+		r.Parallel(int64(len(cases)), 0, func(i int64) { r.Check(limited(r, cases[i].inOpenClass(), checkCase(r, cases[i]))) })
 	}
-	run("E1 slot matrix: 51 parameter slots (7 fixed types x positions 0-2, 2 map types x 3, 2 helper-context types x 3, 3 variadic element types x 0-1 fixed x tail index 0-2) x 18 argument kinds x block x wrapped/unwrapped", slotMatrix())
-	rots := r.Pick(2, 7)
-	run(fmt.Sprintf("E2 arity matrix: 0-3 fixed parameters (%d type rotations) x 12 tails x 12 result shapes x 0..N+1 well-typed arguments x block x wrapped/unwrapped", rots), arityMatrix(rots))
+	run("E1 slot matrix: 78 parameter slots (14 fixed types x positions 0-2, 2 map types x 3, 2 helper-context types x 3, 4 variadic element types x 0-1 fixed x tail index 0-2) x 36 argument kinds x block x wrapped/unwrapped", slotMatrix())
+	rots := r.Pick(3, 14)
+	run(fmt.Sprintf("E2 arity matrix: 0-3 fixed parameters (%d type rotations) x 12 tails x 21 result shapes x 0..N+1 well-typed arguments x block x wrapped/unwrapped", rots), arityMatrix(rots))
+
+	run("E4 route matrix: 12 signatures that also exist as methods x 6 routes to the function (name, pointer to func, slice element, map value, method through pointer, method through struct value) x 4 uses of the value (emitted, silent tag, let then emitted, argument of a recording helper) x (0..N+1 well-typed arguments + last slot with every core kind) x block", routeMatrix())
+
+	var useCases []Case
+	for _, rs := range allRes {
+		for _, use := range uses {
+			for _, tl := range []tail{{}, {h: "iface"}, {v: "any"}} {
+				for _, blk := range []bool{false, true} {
+					c := Case{Sig: Sig{Fixed: []string{"any"}, HC: tl.h, Var: tl.v, Res: rs.res, RT: rs.rt}, Args: []string{"int"}, Wrap: uint(len(useCases) % 2), Block: blk, Use: use}
+					if c.validate() == "" {
+						useCases = append(useCases, c)
+					}
+				}
+			}
+		}
+	}
+	run("E5 use matrix: 21 result shapes (incl. results whose value is 0, the empty string, nil, an error value held in interface{}) x 4 uses of the call's value x 3 tails x block", useCases)
 
 	p := newProduct(2, r.Pick(2, 3))
 	p.both = r.Thorough()
 	r.Subspace(fmt.Sprintf("E3 product: %d signatures (<= %d fixed parameters x 12 tails) x %d calls (<= %d arguments of 18 kinds), block: %s; wrapped except every third", len(p.sigs), 2, p.calls, p.maxN, map[bool]string{true: "both", false: "alternating with the index"}[p.both]), p.size(), true)
-	r.Parallel(p.size(), 0, func(i int64) { r.Check(checkCase(r, p.at(i))) })
+	r.Parallel(p.size(), 0, func(i int64) {
+		c := p.at(i)
+		r.Check(limited(r, c.inOpenClass(), checkCase(r, c)))
+	})
 
 	fit := map[string][]string{}
 	for name, ty := range fixedTypes {
@@ -1525,7 +2707,14 @@ func TestProp(t *testing.T) {
 	for name, ty := range hcTypes {
 		fit[name] = fittingKinds(ty)
 	}
-	r.Rapid("random", r.Pick(6000, 60000), func(t *rapid.T) *vk.Fail { return checkCase(r, genCase(t, fit)) })
+	skips := atomic.LoadInt64(&openReported) >= openLimit
+	r.Rapid("random", r.Pick(6000, 60000), func(t *rapid.T) *vk.Fail {
+		c := genCase(t, fit)
+		if skipOpen(r, c.inOpenClass(), skips) {
+			return nil
+		}
+		return checkCase(r, c)
+	})
 
 	// one call site executed for several functions of different signatures within one render
 	for _, sc := range seqRegressions {
@@ -1539,9 +2728,36 @@ func TestProp(t *testing.T) {
 	}
 	r.Subspace(fmt.Sprintf("S1 one call site, two functions: %d x %d ordered signature pairs (<= 1 fixed parameter of %d types x 12 tails) x %d calls (<= %d arguments of %d kinds) x block (%d); modes loop/let/ufn and wrapped/unwrapped by index",
 		len(sp.sigs), len(sp.sigs), (len(sp.sigs)/12)-1, sp.calls, sp.maxN, len(sp.kinds), sp.blocks), sp.size(), true)
-	r.Parallel(sp.size(), 0, func(i int64) { r.Check(checkSeq(r, sp.at(i))) })
+	r.Parallel(sp.size(), 0, func(i int64) {
+		sc := sp.at(i)
+		r.Check(limited(r, sc.inOpenClass(), checkSeq(r, sc)))
+	})
 	sa := seqArity(r.Pick(1, 2))
 	r.Subspace(fmt.Sprintf("S2 one call site, two functions: ordered pairs of signatures (0-%d fixed x 12 tails x 4 result shapes) x well-typed argument lists for either member; modes, block, wrapping by index", r.Pick(1, 2)), int64(len(sa)), true)
-	r.Parallel(int64(len(sa)), 0, func(i int64) { r.Check(checkSeq(r, sa[i])) })
-	r.Rapid("sequences", r.Pick(6000, 60000), func(t *rapid.T) *vk.Fail { return checkSeq(r, genSeq(t, fit)) })
+	r.Parallel(int64(len(sa)), 0, func(i int64) { r.Check(limited(r, sa[i].inOpenClass(), checkSeq(r, sa[i]))) })
+	skips = atomic.LoadInt64(&openReported) >= openLimit
+	r.Rapid("sequences", r.Pick(6000, 60000), func(t *rapid.T) *vk.Fail {
+		sc := genSeq(t, fit)
+		if skipOpen(r, sc.inOpenClass(), skips) {
+			return nil
+		}
+		return checkSeq(r, sc)
+	})
+
+	// several call sites in one template: in sequence, nested as arguments, nested in blocks, in a loop
+	var trees []TreeCase
+	for rot := 0; rot < r.Pick(1, 3); rot++ {
+		for _, a := range treePool {
+			for _, b := range treePool {
+				trees = append(trees, treeShapes(a, b, rot)...)
+			}
+		}
+	}
+	r.Subspace(fmt.Sprintf("T1 several call sites: %d x %d ordered signature pairs x 12 shapes (two sites with their own blocks then again without, a call as first / last argument of a call with a block, a call with a block as argument of a call with another block, a call in the block of a call, three levels of blocks, loops whose blocks and arguments show the loop variable, such a loop entered twice from an outer loop) x %d argument rotations", len(treePool), len(treePool), r.Pick(1, 3)), int64(len(trees)), true)
+	r.Parallel(int64(len(trees)), 0, func(i int64) { r.Check(checkTree(r, trees[i])) })
+	// many calls within ONE render: whatever is kept per render must not run out or pile up
+	for _, tc := range longTrees() {
+		r.Check(checkTree(r, tc))
+	}
+	r.Rapid("trees", r.Pick(6000, 60000), func(t *rapid.T) *vk.Fail { return checkTree(r, genTree(t, fit)) })
 }
